@@ -1,5 +1,6 @@
 (** Property C01 - every call history behaves like an ideal in-memory byte-string map. *)
-From Aby Require Import Base Vu64 Hash KeyTypes Consts Sizing Alloc AllocInv Htx Store Spec Refine Refine_all.
+From Aby Require Import Base Vu64 Hash KeyTypes Consts Sizing Alloc AllocInv Htx Store Spec Refine Refine_all
+  Iter Stats Layout Bulk Db Db_proofs World_refine.
 
 (** For EVERY start state satisfying the file invariant (in particular every reachable one, golden
     images, re-opened maps), every finite history of put / get / delete / includes_key / len /
@@ -25,6 +26,32 @@ Theorem C01_put : put_stmt. Proof. exact put_closed. Qed.
 Theorem C01_get : get_stmt. Proof. exact get_closed. Qed.
 Theorem C01_del : del_stmt. Proof. exact del_closed. Qed.
 Theorem C01_len : len_stmt. Proof. exact len_closed. Qed.
+
+(** THE LEVEL THE RUNNER EXECUTES.  [Db.step] is the world-level model (several maps per
+    directory, database and map handles, every API call incl. typed-integer and bulk variants) that
+    the correspondence check runs against the crate call by call.  [iworld]: one ideal byte-string
+    map per (directory, name); [istep]: the ideal result of each call; [ops_ok]: every call goes
+    through an existing handle with well-formed keys/values (bulk_delete / bulk_put batches without
+    repeated keys).  For every such history, from the empty world: every call returns exactly the
+    ideal result, never runs out of fuel or errs, panics only where the ideal world predicts a
+    refused open (wrong type signature, Capacity(0)), and the files of every map keep the invariant
+    and represent their ideal map. *)
+Theorem C01_world_refines_ideal_maps : forall w iw ops,
+  wrep w iw -> ops_ok w ops ->
+  wrep (world_run w ops) (irun w iw ops).1 /\
+  Forall2 agrees (run_outs w ops) (irun w iw ops).2.
+Proof. exact world_run_refines. Qed.
+
+Theorem C01_world_from_empty : forall ops,
+  ops_ok world0 ops ->
+  wrep (world_run world0 ops) (irun world0 ∅ ops).1 /\
+  Forall2 agrees (run_outs world0 ops) (irun world0 ∅ ops).2.
+Proof. exact world_run_from_empty. Qed.
+
+(** [ops_ok] is decidable: the runner evaluates [ops_okb] on every generated history and reports in
+    the evidence how many of them lie inside the domain of this theorem *)
+Theorem C01_domain_checker_sound : forall ops w, ops_okb w ops = true -> ops_ok w ops.
+Proof. exact ops_okb_ok. Qed.
 
 (** non-vacuity: a concrete history on a one-bucket table (all keys collide), with an overwrite by
     a longer value, a delete, an empty key and an empty value, evaluated by the kernel *)
